@@ -357,8 +357,23 @@ def r08_2(chk, sht):
                "(zero-initialised) has exactly that many entries", any(Lp1 == w for w in want) and spec_sz is not None and spec_sz == Lp1, node=pat[0].node,
                fingerprint="real-degrees", expected=str(want[0]), found=f"L + 1 = {Lp1}; accumulator of {spec_sz} entries")
     adds = [e for e in ev.events if e.kind == "call" and call_name(e.value.as_atom() or ()) == "numpy.add.at"]
-    chk.need(len(adds) == 2, f"{q}: expected two np.add.at accumulations in the real branch")
     weights = []
+    if len(adds) == 1:
+        # the m = 0 block written without a scatter: in the packed layout the first L + 1 coefficients are (l, 0) for l = 0 .. L in order,
+        # so spectrum[:L + 1] = |c[:L + 1]|^2 is the same accumulation -- with exactly that bound on both sides
+        for e in ev.events:
+            ta = e.target.as_atom() if e.kind == "store" and e.target is not None else None
+            if ta and ta[0] == "sub" and ta[1].as_atom() and ta[1].as_atom()[0] == "obj" and ta[1].as_atom()[1] == "spectrum" and len(ta[2]) == 1 \
+                    and ta[2][0].as_atom() and ta[2][0].as_atom()[0] == "slice":
+                sl = ta[2][0].as_atom()
+                cs = P.atom(("sub", coef, (ta[2][0],)))
+                same = e.value == P.atom(("call", P.name("abs"), (cs,))) ** 2
+                okm0 = bool(same and Lp1 is not None and sl[1].key() == "None" and sl[2].key() == Lp1.key())
+                weights.append(("m=0", Fraction(1)) if okm0 else (None, None))
+                chk.ob("R08.2", SHT, q, "real branch: degrees and |c|^2 are taken from the same slice of the packed vector", okm0, node=e.node,
+                       fingerprint="real-slice:m=0", expected=f"spectrum[:{Lp1}] = |c[:{Lp1}]|^2 (all L + 1 zonal coefficients)",
+                       found=f"{str(e.target)[:60]} = {str(e.value)[:60]}")
+    chk.need(len(adds) + len(weights) == 2, f"{q}: expected two accumulations (m = 0 and m > 0) in the real branch")
     for e in adds:
         args = e.extra["args"]
         idx = args[1].as_atom()
